@@ -132,6 +132,12 @@ def plugin_args(
     name: str = ""
     vers: Optional[SemVerTuple] = version
 
+    if isinstance(plugin, type):
+        # a plugin class: its info counts, not attributes of the class that
+        # happen to be called name or version
+        if isinstance(pgi := getattr(plugin, "Plugin", None), HasNameVersion):
+            return plugin_args(pgi, version, require_version=require_version)
+
     if isinstance(plugin, str):
         name = plugin
     if isinstance(plugin, tuple) and len(plugin) == 2:
